@@ -494,6 +494,7 @@ impl Runner {
             "archive_digest" => self.do_archive_digest(st),
             "walk" => self.do_walk(st),
             "bulk_probe" => self.do_bulk_probe(st),
+            "leftover_block" => self.do_leftover_block(st),
             other => panic!("unknown step op {other}"),
         }
     }
@@ -1057,6 +1058,25 @@ impl Runner {
             "mon_errors": 0, "mon_list": [],
             "tree": [], "entries": entries, "quick": false, "versions": [], "changes": [],
             "dest_unchanged": true, "outside_unchanged": true, "ms": 0}));
+    }
+
+    /// The zero-length file a write of the block with this content leaves when the process is killed
+    /// after creating the file and before writing into it (logged as such a killed write).
+    fn do_leftover_block(&mut self, st: &Value) {
+        let content: Vec<u8> = serde_json::from_value(st["content"].clone()).unwrap_or_default();
+        let hash = decode::blake2b_hex(&content);
+        let rel = format!("d/{}/{}", &hash[..3], hash);
+        let full = self.arch.join(&rel);
+        fs::create_dir_all(full.parent().unwrap()).unwrap();
+        if fs::symlink_metadata(&full).is_err() {
+            fs::write(&full, b"").unwrap();
+            self.log.emit_op(json!({
+                "ev": "op", "seq": 0, "actor": "init", "k": -1, "verb": "write",
+                "key": decode::key_of(&rel), "mode": "new", "inj": "crash_empty", "res": "Other", "pre": "absent",
+                "dec": decode::payload("none"), "names": Vec::<String>::new(), "len": -1,
+            }));
+        }
+        self.emit_fsck();
     }
 
     /// A band with more index hunks than fit one index sub-directory (doc/format.md: hunk n lives at
